@@ -57,6 +57,22 @@ int main(void)
       }
       pr_long("vecmat_bad_col", bad);
       DelDVector(&p);
+      /* the same two kernels on data with missing-coded cells: the threaded kernel must equal the
+       * sequential one (which leaves out every product with a missing operand) */
+      { matrix *mm, *mmt; dvector *pr, *pm;
+        NewMatrix(&mm, R, 3); NewMatrix(&mmt, 3, R);
+        for(i = 0; i < R; i++) for(j = 0; j < 3; j++){ double x = (i % 3 == 1 && j == 1) ? MISSING : val(i, j); mm->data[i][j] = x; mmt->data[j][i] = x; }
+        NewDVector(&pr, R); NewDVector(&pm, R);
+        MatrixDVectorDotProduct(mm, v, pr);
+        verif_nproc_override = T; MT_MatrixDVectorDotProduct(mm, v, pm); verif_nproc_override = 0;
+        bad = -1; for(i = 0; i < R; i++) if(!same(pr->data[i], pm->data[i]) && bad < 0) bad = (long)i;
+        pr_long("matvecmissing_bad_row", bad);
+        DelDVector(&pr); DelDVector(&pm); NewDVector(&pr, R); NewDVector(&pm, R);
+        DVectorMatrixDotProduct(mmt, v, pr);
+        verif_nproc_override = T; MT_DVectorMatrixDotProduct(mmt, v, pm); verif_nproc_override = 0;
+        bad = -1; for(i = 0; i < R; i++) if(!same(pr->data[i], pm->data[i]) && bad < 0) bad = (long)i;
+        pr_long("vecmatmissing_bad_col", bad);
+        DelDVector(&pr); DelDVector(&pm); DelMatrix(&mm); DelMatrix(&mmt); }
       /* square distance matrices */
       for(me = 0; me < 4; me++){
         char nm[64];
